@@ -188,7 +188,9 @@ def diff_intervals(old, new):
     a = np.frombuffer(old, dtype=np.uint8)
     b = np.frombuffer(new, dtype=np.uint8)
     if len(b) > len(a):
-        a = np.concatenate([a, np.zeros(len(b) - len(a), dtype=np.uint8)])
+        # storage replaced by growth: the content of the new part is unspecified until somebody writes it
+        # (writes there are still seen by the write log)
+        b = b[:len(a)]
     idx = np.nonzero(a != b)[0]
     if len(idx) == 0:
         return []
@@ -310,6 +312,7 @@ class Follower:
         self.buf = weakref.ref(buf)
         self.sh = Shadow(buf.capacity)
         self.new_allocs = []  # (off, size) since last reset
+        self.not_free = []  # allocations that were not inside free space
         listeners.append(self)
 
     def __call__(self, buf, ev):
@@ -321,7 +324,9 @@ class Follower:
                 sh.grow_to(c1)
             sh.grow_to(ev["cap1"])
             if ev["off"] is not None:
-                sh.take_at(ev["off"], ev["size"])
+                if not sh.take_at(ev["off"], ev["size"]) and ev["size"] > 0:
+                    # the allocator handed out bytes that were not free (they belong to a live region)
+                    self.not_free.append((ev["off"], ev["size"]))
                 self.new_allocs.append((ev["off"], ev["size"]))
         elif ev["op"] == "grow":
             sh.grow_to(ev["cap1"])
